@@ -296,7 +296,7 @@ func shareID(a, b *vlib.BatchSpec) bool {
 }
 
 func TestC05Free(t *testing.T) {
-	vlib.Check(t, 120, 2000, func(rt *rapid.T) {
+	vlib.Check(t, 120, 800, func(rt *rapid.T) {
 		c := genFree(rt)
 		var st freeStats
 		f := vlib.Guard("free", func() *vlib.Failure { return propFree(c, &st) })
@@ -541,7 +541,7 @@ func propEnum(c EnumCase, st *enumStats) *vlib.Failure {
 }
 
 func TestC05Enumerated(t *testing.T) {
-	vlib.Check(t, 25, 300, func(rt *rapid.T) {
+	vlib.Check(t, 25, 120, func(rt *rapid.T) {
 		c := genEnum(rt)
 		var st enumStats
 		f := vlib.Guard("enum", func() *vlib.Failure { return propEnum(c, &st) })
